@@ -16,7 +16,8 @@ def generatedFacts : Facts :=
     hashesConfig := C11.runtimeHashParts.contains "config",
     hashesFiles := C11.runtimeHashParts.contains "files-digest" && C11.runtimeHashLoopWrites.contains "hash" &&
                    C11.runtimeHashLoopIter == "IterRuntimeFiles",
-    hashesNames := C11.runtimeHashLoopWrites.contains "name",
+    -- the destination name of each entry, NUL-terminated (names cannot contain NUL, digests have a fixed width)
+    hashesNames := C11.runtimeHashLoopWrites.contains "name:dest" && C11.runtimeHashLoopWrites.contains "nul",
     rerunForces := C11.needToRunConds.contains "force",
     reuseStates := C11.needToRunStates.filterMap bstateOfName,
     verifiesHash := C11.needToRunVerifiesResultsHash && C11.verifyHashIsEqualityWithRecorded &&
@@ -28,12 +29,15 @@ def generatedFacts : Facts :=
     storeIfNoArgs := C11.storeInnerGuards.contains "len(state.TestArgs)>0",
     cachedRejectsFailed := C11.cachedRejectsNotAllSucceeded }
 
+/-- `ruleHash(runtime = true)` writes `Test.NoOutput` (consumed by the concrete end-to-end instance). -/
+def hashesNoOutput : Bool := C11.ruleHashRuntimeWrites.contains "hashBool:Test.NoOutput"
+
 /-- Decidable side condition under which the C11 theorems apply to the regenerated facts:
     the runtime hash covers rule, config and every runtime file's content; a stored result is only used after
     its recorded hash was compared with the current one; only all-succeeded results are stored.
-    (Whether NAMES are hashed is not required here: that is the hypothesis of `C11_outcome_eq_fresh`.) -/
+    Since the repair of `runtime-hash-omits-file-names` the entry NAMES must be hashed too. -/
 def FactsOK : Bool :=
-  generatedFacts.hashesRule && generatedFacts.hashesConfig && generatedFacts.hashesFiles &&
+  generatedFacts.hashesRule && generatedFacts.hashesConfig && generatedFacts.hashesFiles && generatedFacts.hashesNames &&
   generatedFacts.verifiesHash && generatedFacts.storeIfAllSucceeded && generatedFacts.removesBefore &&
   generatedFacts.rerunForces && generatedFacts.singleRunOnly &&
   -- the gate consults needToRun and the stored result is what is reported
